@@ -52,6 +52,11 @@ def gen_model(rng, family=None):
         name = rng.choice(["A", "B", "Svc", "Repo", "Ctl", "Impl", "Base"]) + str(i)
         if rng.random() < 0.08:
             name = "Main"
+        # the same simple name in another package (types are identified by their qualified name)
+        if types and rng.random() < 0.2:
+            other = rng.choice(types)
+            if other[0] != pkg and (pkg, other[1]) not in types:
+                name = other[1]
         types.append((pkg, name))
     ext_types = [(rng.choice(pkgs), "Ext%d" % i) for i in range(2)] + [("java.util", "List"), ("org.lib", "Thing")]
     def target(include_self_idx=None):
